@@ -475,6 +475,11 @@ func init() {
 						w, err := NewC10World(a)
 						if err == nil {
 							w.MonitorEvents()
+							// the victim's writes of its cached head lists are gates too: whatever the store does after
+							// starting such a write (emitting, say) happens while the write is still parked
+							w.Net.Gates.Enable(func(kind, peer, key, caller string) bool {
+								return peer == "V" && (kind == "dag.get" || (kind == "cache.put" && strings.HasSuffix(key, "Heads")))
+							})
 						}
 						return w, err
 					},
